@@ -1,0 +1,1 @@
+//! Verification wrappers for this component (data-only re-exports of crate-private items).
